@@ -174,7 +174,7 @@ func (ex *Exec) syncMapElem(recv Value) types.Type {
 
 // govalidator (reflection over struct tags): outside the verified subset
 func init() {
-	regExtern("github.com/asaskevich/govalidator.ValidateStruct", "govalidator.ValidateStruct: (bool, error) - either a nil error, or an error of dynamic type govalidator.Errors; no effect on modelled state",
+	regExtern("github.com/asaskevich/govalidator.ValidateStruct", "govalidator.ValidateStruct(p): (bool, error) - either a nil error, and then the presence requirements of the valid tags of *p hold (required pointers non-nil recursively, required strings and lists non-empty: the predicate generated from the tags in the current source), or an error of dynamic type govalidator.Errors; no effect on modelled state",
 		func(ex *Exec, fr *Frame, st *State, pc *Term, fn *ssa.Function, args []Value, pos token.Pos) (Value, *Term) {
 			okv := Fresh("validate.ok", BoolSort)
 			var errT types.Type
@@ -191,6 +191,15 @@ func init() {
 			tag := Const(typeTag(errT), 64)
 			pay := Fresh("validate.err", BV64)
 			ex.assume(pc, And(Not(Eq(pay, C64(0))), ULt(pay, st.next)))
+			// no error: the presence requirements of the `valid:"..."` tags of the argument's type hold
+			// (the predicate generated from the tags in the current source, as for verif_validated)
+			if a, isIface := args[0].(VIface); isIface && a.Tag.IsConst() {
+				if pt, isPtr := under(tagTypes[a.Tag.Val]).(*types.Pointer); isPtr {
+					if _, isStruct := under(pt.Elem()).(*types.Struct); isStruct {
+						ex.assume(pc, Implies(okv, And(Not(Eq(a.Pay, C64(0))), ex.validatedPred(st, pc, tagTypes[a.Tag.Val], VPtr{T: a.Pay}, 0))))
+					}
+				}
+			}
 			return VTuple{[]Value{VBool{okv}, VIface{Ite(okv, C64(0), tag), Ite(okv, C64(0), pay)}}}, pc
 		})
 	regExtern("(github.com/asaskevich/govalidator.Errors).Errors", "govalidator.Errors.Errors(): the list itself (opaque content)", pureOpaque)
